@@ -128,8 +128,11 @@ PROPS = {
         parts=[dict(engine="compsim", profile="C09", builds=["dbg", "rwdi"], weight=2.0),
                dict(engine="compsim", profile="C09S", builds=["dbg", "rwdi"], weight=1.0),
                # deeply tracked pool / stack: growth, shrink and node events, across moves
-               dict(engine="compsim", profile="C09D", builds=["dbg", "rwdi"], weight=0.6)],
-        quick_s=45, thorough_s=600, rule='each run = one plan drawn from a 63-bit seed (composition / helper, leaf limits and budgets, thresholds, request shapes, leaf or constructor failures attached to operations), executed against the real adapter templates over logging leaf allocators; distinct = distinct run hash (op outcomes, returned offsets, leaf ledger); non-trivial = at least one release through the composition and (a request served by a non-first leaf or at least 4 operations)',
+               dict(engine="compsim", profile="C09D", builds=["dbg", "rwdi"], weight=0.6),
+               # allocator references inside containers: which allocator object a (re-seated, assigned, type-erased)
+               # reference passes its requests to
+               dict(engine="compsim", profile="C10", builds=["dbg"], weight=0.5)],
+        quick_s=50, thorough_s=600, rule='each run = one plan drawn from a 63-bit seed (composition / helper, leaf limits and budgets, thresholds, request shapes, leaf or constructor failures attached to operations), executed against the real adapter templates over logging leaf allocators; distinct = distinct run hash (op outcomes, returned offsets, leaf ledger); non-trivial = at least one release through the composition and (a request served by a non-first leaf or at least 4 operations)',
         stubs=["logging leaf RawAllocators (with/without array members, composable or not, stateful or "
                "stateless, budgets, failure at the k-th call) over SimHeap", "recording Tracker",
                "instrumented element types"],
